@@ -189,7 +189,8 @@ def run(ctx):
             # ---- the (p, q) grid, every corner, random T / model / eta ----
             for p in PS:
                 for q in QS:
-                    for rep in range(runs_per_cfg if not big else max(1, runs_per_cfg // 2)):
+                    heavy = p >= 0.3 and n > 20       # dense defect sets: the matcher is cubic in their number
+                    for rep in range(max(1, runs_per_cfg // 8) if heavy else (runs_per_cfg if not big else max(1, runs_per_cfg // 2))):
                         eta = rng.choice(ETAS)
                         ds = (dname, (eta,)) if fam == 'rotatedplanar' else (dname, (rng.choice([False, False, True]), eta))
                         dec = zoo.make_decoder(ds)
@@ -199,7 +200,7 @@ def run(ctx):
                         except ValueError:
                             ctx.hist['out-of-domain context (documented ValueError), redrawn'] += 1
                             ems = ('BiasedDepolarizingErrorModel', (10, 'Y'))
-                        T = rng.choice([1, 1, 2, 2, 3]) if rep == 0 else rng.randint(1, Tmax if not big else min(Tmax, 5))
+                        T = rng.choice([1, 1, 2, 2, 3]) if rep == 0 else rng.randint(1, 4 if heavy else (Tmax if not big else min(Tmax, 5)))
                         jid = len(jobs)
                         jobs.append({'id': jid, 'code': cs, 'decoder': ds,
                                      'runs': [{'T': T, 'p': p, 'q': q, 'em': ems, 'seed': rng.getrandbits(32)}]})
